@@ -2166,6 +2166,16 @@ fn resolve_container_mount_params(
         .to_string());
 }
 
+#[cfg(quadlet_rs_verif)]
+pub(crate) fn verif_is_port_range(port: &str) -> bool {
+    is_port_range(port)
+}
+
+#[cfg(quadlet_rs_verif)]
+pub(crate) fn verif_find_mount_type(input: &str) -> Result<(String, Vec<String>), ConversionError> {
+    find_mount_type(input)
+}
+
 #[cfg(test)]
 mod tests {
     use super::*;
